@@ -7,7 +7,7 @@ ID = "C08"
 LIMIT = 40.0
 RULE = ("connected triangle meshes (flat: grids, planar Delaunay, rigidly moved; curved: height fields, polyhedra, tori) and connected "
         "tet meshes (oriented / unoriented / mixed), all vertices used x vertex functions (affine with random direction, random smooth; "
-        "amplitudes 1, 1e-3, 1e-9; dtypes float64, float32, int64). distinct = hash of the case; non-trivial = >= 4 elements")
+        "amplitudes 1, 1e-3, 1e-9, 1e-17, 1e-30, 1e8 (float32: >= 1e-9); dtypes float64, float32, int64). distinct = hash of the case; non-trivial = >= 4 elements")
 TRUSTED = ["SuperLU on the singular but consistent system A g = div is an oracle; whether it returns, raises or emits non-finite values "
            "is runtime behaviour no theorem covers (monitored: see known finding F17)"]
 ASSUMPTIONS = ["residuals compared at 2e-4 relative (float32 right-hand side, singular system)"]
@@ -87,8 +87,10 @@ def generate(rng, tier):
             f = p @ a + 0.4
         else:
             f = np.sin(p @ a) + 0.5 * (p @ np.array([0.3, -0.2, 0.5]))
-        amp = rng.choice([1.0, 1.0, 1e-3, 1e-9])
+        amp = rng.choice([1.0, 1.0, 1e-3, 1e-9, 1e-17, 1e-30, 1e8])      # only the direction of the gradient may matter
         fd = rng.choice(["float64", "float64", "float32", "int64"])
+        if fd == "float32" and amp < 1e-9:
+            amp = 1e-9          # squares of smaller gradients underflow in single precision
         if fd == "int64":
             amp = 1.0
             if c["kind"] == "tria" and c["family"] == "flat_grid" and not c.get("flipped"):
